@@ -101,4 +101,21 @@ PROPS = {
             "stream precondition wf_instance: one value per iteration index for each loop instance, indices parse as integers",
         ],
     },
+    "C01": {
+        "category": "other",
+        "harness_modes": ["crosscheck"],
+        "depends": [("C33", ["compare_tags"])],
+        "explanation": "Fragment (the per-function core). Proved for every list length: ScatterStep._scatter emits element i retagged <tag>.<i> with its value, in list "
+        "order, followed by exactly one size token <tag> carrying the length (0 for an empty list); GatherStep._gather emits exactly one ListToken carrying the key as tag "
+        "whose items are exactly the key's collected elements ordered by compare_tags, i.e. depth first and then NUMERICALLY per component (compare_tags itself is proved "
+        "in C33). Lemmas over these contracts: n strictly increasing naturals below n are 0..n-1 (two ghost inductions), hence whatever the arrival order, position a of "
+        "the gathered list holds the element scattered from position a (also for n >= 10). NOT decided by proof: GatherStep.run's event loop (each key gathered exactly "
+        "once, at the arrival that completes it, for every interleaving of the element and size streams; forced gather at termination) — covered only by the bounded "
+        "run-time round trips (lengths 0..25, shuffled arrival, every size-token position, nested scatter); ScatterStep.run; that intermediate steps are element-wise.",
+        "assumptions": [
+            "compare_tags' contract (proved in C33) is used as an assumed pure function; A-STR tag_append: t + '.' + str(i) appends the numeric component i",
+            "Port.put appends to token_list (C03); BaseStep._persist_token returns the token it was given (C07); Token/ListToken constructors and Token.retag are assumed field assignments",
+            "A-SORTED sorted(xs, key=cmp_to_key(c)) returns a permutation of xs ordered by c",
+        ],
+    },
 }
